@@ -261,6 +261,10 @@ def c2_generate(fb, rep):
     rep.floor(clause, 'instantiations of TBGenerator::generate', len(gens), 1)
     for f in gens:
         tag = f.name
+        # roles: the number of positions = the local initialised from nPositions(); the time limit = the first parameter
+        npos_ids = {v['id'] for _, _, e in f.events() if e.get('k') == 'decl' for v in e.get('vars', [])
+                    if any(n.get('k') == 'call' and cname(n) == 'TBPosition::nPositions' for n in walk(v.get('init') or {}))}
+        time_param = (f.d.get('params') or [{}])[0].get('id')
         # the sweep: setDraw guarded by isRemainingN inside a for loop
         sweeps = []
         for bid, i, e in f.calls('PositionValue::setDraw'):
@@ -302,7 +306,7 @@ def c2_generate(fb, rep):
             l, r = cond.get('l'), cond.get('r')
             l0 = l.get('e') if isinstance(l, dict) and l.get('k') == 'cast' else l
             r0 = r.get('e') if isinstance(r, dict) and r.get('k') == 'cast' else r
-            if isinstance(l0, dict) and l0.get('k') == 'var' and isinstance(r0, dict) and r0.get('k') == 'var' and r0.get('n') == 'nPos':
+            if isinstance(l0, dict) and l0.get('k') == 'var' and isinstance(r0, dict) and r0.get('k') == 'var' and r0.get('id') in npos_ids:
                 idxv = l0.get('id')
                 shape_ok = True
         init_ok = False
@@ -332,13 +336,22 @@ def c2_generate(fb, rep):
         rets = f.find_events(is_ret_true)
         rep.floor(clause, '`return true` in %s' % tag, len(rets), 1)
         seen_at_header = set()
+        # the change counter: the local incremented where a new mate-in-n value is recorded
+        mod_ids = set()
+        for bid2, blk2 in f.blocks.items():
+            if any(ev.get('k') == 'call' and cname(ev) == 'PositionValue::setMateInN' for ev in blk2['ev']):
+                for ev in blk2['ev']:
+                    if ev.get('k') == 'incdec' and ev.get('op') == '++' and isinstance(ev.get('e'), dict) and ev['e'].get('vk') == 'local':
+                        mod_ids.add(ev['e']['id'])
+        if not mod_ids:
+            rep.broken(clause, '%s: no change counter is incremented where setMateInN records a new value' % tag)
 
         def tr(ev, c, pos):
-            if ev.get('k') == 'decl' and any(v.get('n') == 'modified' for v in ev.get('vars', [])):
+            if ev.get('k') == 'decl' and any(v.get('id') in mod_ids for v in ev.get('vars', [])):
                 return ['?']
             if ev.get('k') in ('incdec', 'asg'):
                 tgt = ev.get('e') if ev.get('k') == 'incdec' else ev.get('l')
-                if isinstance(tgt, dict) and tgt.get('k') == 'var' and tgt.get('n') == 'modified':
+                if isinstance(tgt, dict) and tgt.get('k') == 'var' and tgt.get('id') in mod_ids:
                     return ['?']
             if pos[0] == header:
                 seen_at_header.add(c)
@@ -350,7 +363,7 @@ def c2_generate(fb, rep):
             ce, pol = strip_not(cond2)
             if isinstance(ce, dict) and ce.get('k') == 'bin' and ce.get('op') in ('==', '!='):
                 l, r = ce.get('l'), ce.get('r')
-                if isinstance(l, dict) and l.get('k') == 'var' and l.get('n') == 'modified' and isinstance(r, dict) and r.get('cv') == 0:
+                if isinstance(l, dict) and l.get('k') == 'var' and l.get('id') in mod_ids and isinstance(r, dict) and r.get('cv') == 0:
                     zero = (truth == pol) == (ce['op'] == '==')
                     return ['Z'] if zero else ['?']
             return [c]
@@ -375,7 +388,7 @@ def c2_generate(fb, rep):
             c = t.get('cond')
             if c is None:
                 continue
-            involves = any(n.get('k') == 'var' and n.get('n') == 'maxTimeMillis' for n in walk(c))
+            involves = any(n.get('k') == 'var' and n.get('id') == time_param for n in walk(c))
             if not involves:
                 continue
             aborts.append(b2)
@@ -528,18 +541,31 @@ def c3_partition(fb, rep):
 
 # ----------------------------------------------------------------------------- .4
 
+def tb_size_roles(up):
+    """(id of the table-size-in-bytes local, id and value of the tablebase-region-size constant) of updateTB:
+    the former is initialised from tableSize, the latter is the constant local it is compared with."""
+    tt_ids = {v['id'] for _, _, e in up.events() if e.get('k') == 'decl' for v in e.get('vars', [])
+              if any((ap(n) or '') == 'this.tableSize' for n in walk(v.get('init') or {}))}
+    consts = {v['id']: v['init'].get('cv') for _, _, e in up.events() if e.get('k') == 'decl' for v in e.get('vars', [])
+              if isinstance(v.get('init'), dict) and isinstance(v['init'].get('cv'), int)}
+    for bid, blk in up.blocks.items():
+        c = (blk.get('term') or {}).get('cond')
+        for n in walk(c or {}):
+            if n.get('k') == 'bin' and n.get('op') in ('<', '<=') and any(x.get('k') == 'var' and x.get('id') in tt_ids for x in walk(n.get('l'))):
+                for x in walk(n.get('r')):
+                    if x.get('k') == 'var' and x.get('id') in consts:
+                        return tt_ids, x['id'], consts[x['id']]
+    return tt_ids, None, None
+
+
 def c4_region(fb, rep):
     clause = 'C12.4'
     up = fb.find1(TT + '::updateTB')
     if rep.need(clause, up, 'TranspositionTable::updateTB') is None:
         return
-    tbsize = None
-    for b, i, e in up.events():
-        if e.get('k') == 'decl':
-            for v in e.get('vars', []):
-                if v.get('n') == 'tbSize' and isinstance(v.get('init'), dict):
-                    tbsize = v['init'].get('cv')
-    rep.need(clause, tbsize, 'constant tbSize in updateTB')
+    tt_ids, tb_id, tbsize = tb_size_roles(up)
+    if rep.need(clause, tbsize, 'the constant tablebase-region size of updateTB') is None:
+        return
     # N of the men guard
     nmen = None
     for bid, blk in up.blocks.items():
@@ -583,8 +609,8 @@ def c4_region(fb, rep):
             continue
         ce, pol = strip_not(c)
         if isinstance(ce, dict) and ce.get('k') == 'bin' and ce.get('op') in ('<', '<=') and \
-                any(n.get('k') == 'var' and n.get('n') == 'ttSize' for n in walk(ce.get('l'))) and \
-                any(n.get('k') == 'var' and n.get('n') == 'tbSize' for n in walk(ce.get('r'))):
+                any(n.get('k') == 'var' and n.get('id') in tt_ids for n in walk(ce.get('l'))) and \
+                any(n.get('k') == 'var' and n.get('id') == tb_id for n in walk(ce.get('r'))):
             guard_blocks.append((bid, pol))
     rep.floor(clause, 'size guard ttSize < tbSize + margin', len(guard_blocks), 1)
     for b, i, e in up.find_events(is_make):
